@@ -194,3 +194,97 @@ func (w *World) AdoptWith(peer *simwallet.Account, peerWire map[wallet.BackendID
 	rt.Assume(err == nil)
 	return ch
 }
+
+// Net is a bus for several clients: an envelope is handed synchronously to the
+// consumer subscribed under its recipient address (per-connection order is
+// preserved, as on a real connection).
+type Net struct {
+	mu   sync.Mutex
+	subs []netSub
+	Sent []*wire.Envelope
+	// Drop, if set, decides per envelope whether it is lost on the way.
+	Drop func(*wire.Envelope) bool
+	// Yield makes every Publish a schedule point after the envelope was handed
+	// over and before Publish returns to the sender.
+	Yield bool
+}
+
+type netSub struct {
+	addr map[wallet.BackendID]wire.Address
+	c    wire.Consumer
+}
+
+// SubscribeClient implements wire.Bus.
+func (n *Net) SubscribeClient(c wire.Consumer, a map[wallet.BackendID]wire.Address) error {
+	n.mu.Lock()
+	n.subs = append(n.subs, netSub{a, c})
+	n.mu.Unlock()
+	return nil
+}
+
+// Publish implements wire.Publisher.
+func (n *Net) Publish(_ context.Context, e *wire.Envelope) error {
+	n.mu.Lock()
+	n.Sent = append(n.Sent, e)
+	var to wire.Consumer
+	for _, s := range n.subs {
+		if channel.EqualWireMaps(s.addr, e.Recipient) {
+			to = s.c
+		}
+	}
+	drop := n.Drop != nil && n.Drop(e)
+	n.mu.Unlock()
+	if to == nil {
+		return errors.New("net: unknown recipient")
+	}
+	if !drop {
+		to.Put(e)
+	}
+	if n.Yield {
+		rt.SchedPoint("published")
+	}
+	return nil
+}
+
+// Pair is two honest clients A (index 0) and B (index 1) on one Net.
+type Pair struct {
+	Net  *Net
+	C    [2]*client.Client
+	Acc  [2]*simwallet.Account
+	Wire [2]map[wallet.BackendID]wire.Address
+}
+
+// NewPair creates the two clients.
+func NewPair() *Pair {
+	p := &Pair{Net: &Net{}}
+	for i := 0; i < 2; i++ {
+		p.Acc[i] = simwallet.NewRandomAccount(cryptorand.Reader)
+		p.Wire[i] = WireAddr(byte(0x11 + i))
+		wl := simwallet.NewRestoredWallet(p.Acc[i])
+		_, uerr := wl.Unlock(p.Acc[i].Address())
+		rt.Assume(uerr == nil)
+		c, err := client.New(p.Wire[i], p.Net, funder{}, adjudicator{}, map[wallet.BackendID]wallet.Wallet{channel.TestBackendID: wl}, noWatcher{})
+		rt.Assume(err == nil)
+		p.C[i] = c
+	}
+	return p
+}
+
+// Open registers the same channel (phase Acting, current state cur signed by
+// both) with both clients.
+func (p *Pair) Open(nonce int64, cur func(id channel.ID) *channel.State) (params *channel.Params, st *channel.State, chs [2]*client.Channel) {
+	parts := []map[wallet.BackendID]wallet.Address{{channel.TestBackendID: p.Acc[0].Address()}, {channel.TestBackendID: p.Acc[1].Address()}}
+	params, err := channel.NewParams(60, parts, channel.NoApp(), big.NewInt(nonce), true, false, channel.Aux{})
+	rt.Assume(err == nil)
+	st = cur(params.ID())
+	sigs := []wallet.Sig{SignAs(p.Acc[0], st), SignAs(p.Acc[1], st)}
+	peers := []map[wallet.BackendID]wire.Address{p.Wire[0], p.Wire[1]}
+	for i := 0; i < 2; i++ {
+		src := &gen.Source{IdxV: channel.Index(i), ParamsV: params, PhaseV: channel.Acting,
+			Current: channel.Transaction{State: st.Clone(), Sigs: []wallet.Sig{append(wallet.Sig(nil), sigs[0]...), append(wallet.Sig(nil), sigs[1]...)}}}
+		ch, err := p.C[i].VerifAdoptChannel(src, peers, nil)
+		rt.Assume(err == nil)
+		chs[i] = ch
+	}
+	return params, st, chs
+}
